@@ -12,6 +12,8 @@ NoneStr = "```(None)```"  # == cdd.shared.ast_utils.NoneStr (asserted in oracle.
 NAMES = ["alpha", "beta", "gamma", "delta", "epsilon"]
 # name sets whose members contain one another (an earlier name inside a later one, and the other way round): text-level matching of names
 ALT_NAMES = [["rate", "learning_rate", "rate_decay"], ["batch_size", "size", "s"], ["größe", "température", "naïve_λ"]]
+# a name the library takes for **kwargs, in a position that is not the last (used by C04 only: every other check would only re-report the convention)
+KWARGS_NAMES = ["loader_kwargs", "batch", "zeta"]
 
 # ---- type shapes -----------------------------------------------------------------------------------------
 TYPES = [
@@ -59,7 +61,7 @@ def defaults_for(t):
     if b in ("int",) or t == "Union[int, str]":
         d += [("int", 5), ("zero", 0), ("negint", -5), ("bigint", 1234), ("hugeint", 10 ** 20)]
     if b == "float":
-        d += [("float", 0.5), ("negfloat", -0.5), ("intfloat", 2.0), ("smallfloat", 1e-07)]
+        d += [("float", 0.5), ("negfloat", -0.5), ("intfloat", 2.0), ("smallfloat", 1e-07), ("hugefloat", 1e16), ("int_under_float", 2)]
     if b == "str":
         d += [("str", "a")]
     if t == "Literal[1, 2]":
